@@ -9,8 +9,11 @@ ENABLED = os.environ.get("COCOASM_VERIF") == "1"
 _EVENTS = []
 
 
+LIMIT = 20000
+
+
 def emit(event, **fields):
-    if not ENABLED:
+    if not ENABLED or len(_EVENTS) >= LIMIT:
         return
     record = {"ev": event}
     record.update(fields)
